@@ -103,6 +103,34 @@ def burst_script(nfiles):
     return s.text()
 
 
+def debounce_script(rounds):
+    """rounds of: save, wait out the debounce, save again, a pass (the due head is superseded by the second save, which
+    is not due yet: the pass asks to wait), wait, a pass that stores; with a second file in between"""
+    s = wc.Script(log=False)
+    wc.setup_world(s, wc.base_cfg(deb=2))
+    s.start()
+    s.exec(3, X + "/vim")
+    A, B = WATCH + "/inc/a.txt", WATCH + "/n"
+    for i in range(rounds):
+        s.put(A, "a%d" % i)
+        s.write(3, A)
+        s.tick(2)
+        s.put(A, "again%d" % i)
+        s.write(3, A)
+        s.timeout()
+        s.put(B, "b%d" % i)
+        s.write(3, B)
+        s.write(3, A)
+        s.tick(1)
+        s.timeout()
+        s.tick(2)
+        s.timeout()
+    s.add("live")
+    s.add("stop")
+    s.add("live")
+    return s.text()
+
+
 def main(rep):
     exe_impl, exe_model = vlib.prepare(rep)
     found = False
@@ -121,6 +149,7 @@ def main(rep):
         soak = [("soak%d" % r, soak_script(r, rep.seed)) for r in rounds]
         bursts = [20, 140, 300] if rep.tier == "quick" else [20, 127, 128, 129, 300, 1100]
         soak += [("burst%d" % b, burst_script(b)) for b in bursts]
+        soak += [("wait%d" % r, debounce_script(r)) for r in rounds]
         impl, _, problems = vlib.correspond(exe_impl, None, "world", soak, sandbox=True, shards=len(soak))
         figures = {}
         for cid, script in soak:
@@ -134,9 +163,9 @@ def main(rep):
         total += len(soak)
         if not found:     # (a divergence of the histories is deferred: the soak still decides)
             for cid, fig in figures.items():
-                ref = bbase if cid.startswith("burst") else base
+                ref = bbase if cid.startswith("burst") else figures.get("wait1") if cid.startswith("wait") else base
                 if fig != ref:
-                    scr = burst_script(int(cid[5:])) if cid.startswith("burst") else soak_script(int(cid[4:]), rep.seed)
+                    scr = burst_script(int(cid[5:])) if cid.startswith("burst") else debounce_script(int(cid[4:])) if cid.startswith("wait") else soak_script(int(cid[4:]), rep.seed)
                     rep.violation("soak", {"what": "descriptors / live heap blocks after %s are %s, after %s %s: resource use grows with the number of events"
                                            % (cid, fig, "the smallest burst" if cid.startswith("burst") else "one round", ref), "script": scr.split("\n")[:60] + ["..."] + scr.split("\n")[-8:], "figures": figures})
                     found = True
@@ -189,7 +218,7 @@ def main(rep):
     rep.cov["rule"] = ("random mixed histories with the number of descriptors opened by klunok and not closed (wrapped open/close) checked after every operation: "
                        "2 with a handler loaded, 0 after release; soak: one round of a mixed history (editor exec with ELF interpreter, four damaged editor-named ELF images, plain files, sources replaced by a directory / made unreadable, a history path, "
                        "a project file, a collision, a deleted source, a deleted source whose clean-up fails with EACCES, four passes) repeated 1, 10 and 100 times must end with identical counts of live heap "
-                       "blocks (wrapped malloc/calloc/realloc/strdup/free) and descriptors, before and after releasing the handler; single bursts of 20 / 140 / 300 (thorough: up to 1100) distinct files due in one pass must end with identical counts too; the real main() loop over 5-60 scripted events of every "
+                       "blocks (wrapped malloc/calloc/realloc/strdup/free) and descriptors, before and after releasing the handler; single bursts of 20 / 140 / 300 (thorough: up to 1100) distinct files due in one pass, and 1 / 10 / 100 rounds of passes that have to wait (a due head superseded by a later save that is not due), must end with identical counts too; the real main() loop over 5-60 scripted events of every "
                        "kind (the daemon's own included): the descriptor of each event is closed exactly once")
     rep.cov["samples"] = [soak_script(1, rep.seed).split("\n")[-25:]]
     vlib.conclude_proofs(rep, found)
